@@ -306,6 +306,12 @@ func (c *Ctx) errorPropagates(f *ssa.Function, cv *ssa.Call, ev ssa.Value) (bool
 				}
 			}
 		}
+		// err == errSentinel (identity comparison with a package-level sentinel) is a test of this error as well
+		for _, bf := range branchFacts(f) {
+			if bf.A.Kind == "cmp" && bf.A.Op == token.EQL && len(bf.A.Env) == 0 && sentinelCompare(bf.A, ev) != nil {
+				tested[bf.E] = true
+			}
+		}
 		region := reach(cv.Block(), tested, nil)
 		for _, r := range returnsOf(f) {
 			if !region[r.Block()] || r.Block().Comment == "recover" || len(r.Results) == 0 {
@@ -416,22 +422,29 @@ func (c *Ctx) sentinelConversion(f *ssa.Function, cv *ssa.Call, ev ssa.Value, r 
 	commitSet := c.commitFuncs()
 	for _, bf := range branchFacts(f) {
 		curEnv = bf.A.Env
-		if bf.A.Kind != "bool" || !bf.Holds {
-			continue
-		}
-		cl, _ := callOf(bf.A.X)
-		if cl == nil || calleeFullName(&cl.Call) != "errors.Is" || len(cl.Call.Args) != 2 || strip(cl.Call.Args[0]) != ev {
+		var g *ssa.Global
+		switch {
+		case bf.A.Kind == "bool" && bf.Holds:
+			cl, _ := callOf(bf.A.X)
+			if cl == nil || calleeFullName(&cl.Call) != "errors.Is" || len(cl.Call.Args) != 2 || strip(cl.Call.Args[0]) != ev {
+				continue
+			}
+			ld, ok := strip(cl.Call.Args[1]).(*ssa.UnOp)
+			if !ok || ld.Op != token.MUL {
+				continue
+			}
+			if g, ok = ld.X.(*ssa.Global); !ok {
+				continue
+			}
+		case bf.A.Kind == "cmp" && bf.A.Op == token.EQL && bf.Holds:
+			// err == errSentinel
+			if g = sentinelCompare(bf.A, ev); g == nil {
+				continue
+			}
+		default:
 			continue
 		}
 		if !(bf.E.To() == r.Block() || bf.E.To().Dominates(r.Block())) {
-			continue
-		}
-		ld, ok := strip(cl.Call.Args[1]).(*ssa.UnOp)
-		if !ok || ld.Op != token.MUL {
-			continue
-		}
-		g, ok := ld.X.(*ssa.Global)
-		if !ok {
 			continue
 		}
 		returned, afterCommit := false, false
@@ -488,6 +501,29 @@ func (c *Ctx) sentinelConversion(f *ssa.Function, cv *ssa.Call, ev ssa.Value, r 
 		}
 	}
 	return false
+}
+
+// sentinelCompare: the atom compares ev with (a load of) a package-level sentinel error variable; returns the variable.
+func sentinelCompare(a Atom, ev ssa.Value) *ssa.Global {
+	isEv := func(v ssa.Value) bool { v = strip(v); return v == ev || holdsValue(v, ev) }
+	glob := func(v ssa.Value) *ssa.Global {
+		if ld, ok := strip(v).(*ssa.UnOp); ok && ld.Op == token.MUL {
+			if g, ok := ld.X.(*ssa.Global); ok && isSentinelErrorVar(g) {
+				return g
+			}
+		}
+		return nil
+	}
+	if a.Y == nil {
+		return nil
+	}
+	if isEv(a.X) {
+		return glob(a.Y)
+	}
+	if isEv(a.Y) {
+		return glob(a.X)
+	}
+	return nil
 }
 
 // ------------------------------------------------------------------ OU3
@@ -773,6 +809,38 @@ func ruleOU3(c *Ctx) {
 						gather(call.Common().Args[1], c.autoEnv(g), 0)
 					}
 				}
+				// a reply printer shared with other commands (writeClaimReply(opts, task, state, agent, at)): the value it
+				// hands to writeJSON, with its parameters bound to this command's arguments
+				for _, call := range callsIn(g) {
+					h := calleeOf(call.Common())
+					if h == nil || h == wj || !c.InModule(h) || h.Blocks == nil || inSection[h] || len(callsTo(h, wj)) == 0 {
+						continue
+					}
+					skip := false
+					for _, u := range c.unitOf(rco) {
+						if u == h {
+							skip = true // visited as part of the unit
+						}
+					}
+					if skip || h == rco {
+						continue
+					}
+					ge := c.autoEnv(g)
+					e2 := env{}
+					for k, val := range ge {
+						e2[k] = val
+					}
+					for i, prm := range h.Params {
+						if i < len(call.Common().Args) {
+							e2[prm] = resolveEnv(call.Common().Args[i], ge)
+						}
+					}
+					for _, wcall := range callsTo(h, wj) {
+						if len(wcall.Common().Args) >= 2 {
+							gather(wcall.Common().Args[1], e2, 1)
+						}
+					}
+				}
 			}
 			// values are compared in the frame of the command: parameters of single-caller helpers are bound to their arguments
 			canonAt := func(v ssa.Value, fn *ssa.Function) string { return c.Prog.canonE(v, c.autoEnv(fn)) }
@@ -837,9 +905,36 @@ func ruleOU3(c *Ctx) {
 				outs := c.fieldStoresOfType(f, "ergo.setOutput")
 				for _, fl := range []string{"State", "ClaimedBy"} {
 					for _, v := range outs[fl] {
+						vin, isIn := v.(ssa.Instruction)
+						if isIn && vin.Parent() != nil && Outermost(vin.Parent()) != Outermost(f) {
+							// assembled in a shared helper (buildSetOutput(id, fields, task)): judged at the helper's call
+							// sites in this command, through the parameter the value is read from
+							h := Outermost(vin.Parent())
+							for _, cs2 := range c.callers[h] {
+								if Outermost(cs2.Fn) != Outermost(f) || !canReachInstr(cvv, cs2.Call) {
+									continue
+								}
+								fromItem := false
+								for pi, prm := range h.Params {
+									if pi < len(cs2.Call.Common().Args) && derivesFromLocal(v, prm) {
+										if valueDerivesFromCallToInstr(cs2.Call.Common().Args[pi], cvv) {
+											fromItem = true
+										} else {
+											stale = fl + " = " + c.canon(cs2.Call.Common().Args[pi]) + " (handed to " + c.Name(h) + ")"
+										}
+									}
+								}
+								if fromItem {
+									used = true
+								} else if stale == "" {
+									stale = fl + " = " + c.canon(v)
+								}
+							}
+							continue
+						}
 						if valueDerivesFromCallToInstr(v, cvv) {
 							used = true
-						} else if canReachInstr(cvv, v.(ssa.Instruction)) {
+						} else if isIn && canReachInstr(cvv, vin) {
 							stale = fl + " = " + c.canon(v)
 						}
 					}
@@ -1136,4 +1231,37 @@ func (c *Ctx) hasReplayEdge(v ssa.Value, re *ssa.Function) bool {
 		return false
 	}
 	return valueDerivesFromCallTo(v, re)
+}
+
+// derivesFromLocal: v is computed from src inside its own function (operands, loads of fields of src, local cells).
+func derivesFromLocal(v, src ssa.Value) bool {
+	seen := map[ssa.Value]bool{}
+	var walk func(x ssa.Value, d int) bool
+	walk = func(x ssa.Value, d int) bool {
+		if x == nil || d > 30 || seen[x] {
+			return false
+		}
+		if x == src {
+			return true
+		}
+		seen[x] = true
+		if u, ok := x.(*ssa.UnOp); ok {
+			if cell := cellOf(u.X); cell != nil {
+				for _, st := range cellStores(cell) {
+					if walk(st.Val, d+1) {
+						return true
+					}
+				}
+			}
+		}
+		if in, ok := x.(ssa.Instruction); ok {
+			for _, op := range in.Operands(nil) {
+				if op != nil && *op != nil && walk(*op, d+1) {
+					return true
+				}
+			}
+		}
+		return false
+	}
+	return walk(v, 0)
 }
